@@ -167,6 +167,17 @@ impl Unifiable {
         // Anonymous variable $_ unifies with everything.
         if Unifiable::Anonymous == *other { return Some(Rc::clone(ss)); }
 
+        // The unify method of a function evaluates the function. If the
+        // other term is a function (and this term is not), call its unify
+        // method, so that  5 = add(2, 3)  works like  add(2, 3) = 5.
+        if let Unifiable::SFunction{name: _, terms: _} = other {
+            match self {
+                Unifiable::SFunction{name: _, terms: _} |
+                Unifiable::Anonymous => {},
+                _ => { return other.unify(self, ss); },
+            }
+        }
+
         match self {
 
             // $_ unifies with everything.
